@@ -127,6 +127,16 @@ def render(spec, bodies):
     return pre + sep.join(parts) + post, db
 
 
+def _decode_refs(s):
+    def rep(m):
+        try:
+            t = m.group(1)
+            return chr(int(t[2:], 16) if t[:2] in ("#x", "#X") else int(t[1:]) if t[0] == "#" else {"lt": 60, "gt": 62, "amp": 38, "quot": 34}[t])
+        except (KeyError, ValueError, OverflowError):
+            return m.group(0)
+    return re.sub(r"&(#[0-9]+|#[xX][0-9a-fA-F]+|[A-Za-z0-9]+);", rep, s)
+
+
 def foci(spec):
     return [i for i, r in enumerate(spec["regions"]) if r["tag"] in OPAQUE]
 
@@ -140,7 +150,8 @@ def make_case(cid, spec, focus):
     b2[focus] = PH
     rawp, dbp = render(spec, b2)
     r = spec["regions"][focus]
-    noleak = any(re.search(r"</?%s\b" % r["tag"], b, re.I) for i, b in enumerate(bodies) if i != focus)
+    # another region may legitimately deliver the focus tag's syntax as text: written literally or with character references
+    noleak = any(re.search(r"</?%s\b" % r["tag"], _decode_refs(b), re.I) for i, b in enumerate(bodies) if i != focus)
     return {"id": cid, "tag": r["tag"], "attrs": r["attrs"], "variant": r["variant"], "ctx": "multi:" + spec["layout"],
             "body": bodies[focus], "ph": PH, "raw": raw, "raw_ph": rawp, "db": db, "db_ph": dbp, "noleak": noleak,
             "spec": spec, "focus": focus}
